@@ -21,6 +21,8 @@ const (
 	// 为了兼容阿里云的 redis，我们无法使用 `local key = KEYS[1]` 来重用 key
 	// KEYS[1] as tokens_key
 	// KEYS[2] as timestamp_key
+	// 时间戳只进不退：并发调用方跨秒时，较早取时钟的请求可能后到；
+	// 若把时间戳写回较早的秒，之后的请求会把中间那一秒再补充一次令牌，超发
 	script = `local rate = tonumber(ARGV[1])
 local capacity = tonumber(ARGV[2])
 local now = tonumber(ARGV[3])
@@ -46,7 +48,7 @@ if allowed then
 end
 
 redis.call("setex", KEYS[1], ttl, new_tokens)
-redis.call("setex", KEYS[2], ttl, now)
+redis.call("setex", KEYS[2], ttl, math.max(now, last_refreshed))
 
 return allowed`
 
